@@ -303,6 +303,10 @@ func (vc *VC) specIdent(env *SpecEnv, name string) Val {
 	if strings.HasPrefix(name, "arg") && env.callArgs != nil {
 		var i int
 		if _, err := fmt.Sscanf(name, "arg%d", &i); err == nil && i < len(env.callArgs) {
+			if vc.argTerms != nil && i < len(vc.argTerms) && exprHasCall(env.callArgs[i]) && vc.argTerms[i].Sort == sortOfType(vc.typeOf(env.callArgs[i])) {
+				// the argument is itself a call: use the value it produced, do not call again
+				return Val{vc.argTerms[i], vc.typeOf(env.callArgs[i])}
+			}
 			saved := *env.st
 			v := vc.eval(env.st, env.callArgs[i])
 			*env.st = saved
@@ -668,6 +672,8 @@ func (vc *VC) specCall(env *SpecEnv, e *SCall) Val {
 				return Val{vc.uf("fmtint", SStr, args[0], args[1]), types.Typ[types.String]}
 			case "strconv.Itoa":
 				return Val{vc.uf("itoa", SStr, args[0]), types.Typ[types.String]}
+			case "filepath.Ext", "path/filepath.Ext":
+				return Val{vc.uf("pathext", SStr, args[0]), types.Typ[types.String]}
 			case "errors.Is":
 				return Val{Term{fmt.Sprintf("(errIs %s %s)", args[0].S, args[1].S), SBool}, tb}
 			}
@@ -694,4 +700,15 @@ func (vc *VC) specCall(env *SpecEnv, e *SCall) Val {
 	}
 	vc.fail("spec: unsupported call %s", specString(e))
 	return Val{TFalse, tb}
+}
+
+func exprHasCall(e ast.Expr) bool {
+	found := false
+	ast.Inspect(e, func(n ast.Node) bool {
+		if _, ok := n.(*ast.CallExpr); ok {
+			found = true
+		}
+		return !found
+	})
+	return found
 }
